@@ -74,10 +74,10 @@ P = {
                 verbs=ALL, outs=keep_kinds({"421", "461", "417", "472", "501", "696", "ERROR", "451", "TOPIC", "PRIVMSG", "NOTICE",
                                             "PART", "KICK", "NICK", "INVITE", "WALLOPS", "JOIN", "MODE", "301"}),
                 st=st_kinds(set()), events=False, fn=["msg", "cmd", "render", "codec"], monitors=["reparse"]),
-    "C14": dict(title="glob matching", profiles=[("join", 1), ("speak", 1), ("secret", 1)],
+    "C14": dict(title="glob matching", profiles=[("join", 1), ("speak", 1), ("secret", 1), ("nick", 1)],
                 verbs={"JOIN", "PRIVMSG", "NOTICE", "WHO", "WHOIS", "OPER", "MODE"} | REG_VERBS,
                 outs=keep_kinds({"474", "473", "404", "491", "352", "311", "MODE", "367", "348", "346", "ERROR:"}),
-                st=st_kinds({"chan", "ban"}), events=False, fn=["mw", "norm"], monitors=[]),
+                st=st_kinds({"chan", "ban", "user"}), events=False, fn=["mw", "norm"], monitors=["source"]),
     "C15": dict(title="nick change moves identity", profiles=[("nick", 4), ("general", 1)],
                 verbs={"NICK"}, registered_only=True, outs=ident, st=ident, events=False, monitors=["rename"]),
     "C16": dict(title="channel life cycle", profiles=[("chanlife", 4), ("join", 1)],
@@ -109,3 +109,11 @@ P["C10"]["fn"] = ["banned"]
 P["C05"]["extra_modules"] = ["Irc.InvProofs.Step"]
 P["C06"]["extra_modules"] = ["Irc.InvProofs.Timer"]
 P["C04"]["extra_modules"] = ["Irc.Props.C04Announce"]
+
+# corollaries over reachable worlds / whole runs (`Reachable cfg w`, `run cfg evs`) of every theorem that
+# assumes the invariant, plus a concrete 13-event run at which eleven of them are instantiated (ReachF)
+for _pid, _mods in {"C01": ["ReachA"], "C02": ["ReachA"], "C07": ["ReachA"], "C10": ["ReachA"], "C04": ["ReachB", "ReachE"],
+                    "C05": ["ReachC"], "C06": ["ReachC"], "C19": ["ReachC"], "C11": ["ReachD"], "C12": ["ReachD"],
+                    "C15": ["ReachF"], "C16": ["ReachF"]}.items():
+    P[_pid].setdefault("extra_modules", [])
+    P[_pid]["extra_modules"] = P[_pid]["extra_modules"] + ["Irc.Props." + m for m in _mods]
